@@ -366,6 +366,27 @@ def _native_roundtrips(tier="quick", seed=0):
         got = gf.chart.chart_type
         ok = got == ct
         detail = "add_chart(%s) reads back %s" % (name, got)
+        # the type read back does not depend on how much data there is: one point per series, several one-point series, many points
+        for shape_, nser_, npts_ in (("one point", 1, 1), ("three series of one point", 3, 1), ("seven points", 2, 7)):
+            if not ok:
+                break
+            if "BUBBLE" in name or name.startswith("XY"):
+                cd2 = BubbleChartData() if "BUBBLE" in name else XyChartData()
+                for i_ in range(nser_):
+                    s2 = cd2.add_series("s%d" % i_)
+                    for j_ in range(npts_):
+                        s2.add_data_point(j_, j_ + 1, 3) if "BUBBLE" in name else s2.add_data_point(j_, j_ + 1)
+            else:
+                cd2 = CategoryChartData()
+                cd2.categories = ["c%d" % j_ for j_ in range(npts_)]
+                for i_ in range(nser_):
+                    cd2.add_series("s%d" % i_, tuple(range(npts_)))
+            try:
+                got2 = slide.shapes.add_chart(ct, Emu(0), Emu(0), Emu(1000), Emu(1000), cd2).chart.chart_type
+            except Exception as e:
+                got2 = repr(e)
+            if got2 != ct:
+                ok, detail = False, "add_chart(%s) with %s reads back %s" % (name, shape_, got2)
         if ok:
             # the same chart as another producer may write it: attributes that carry the schema's default value left out (the XSD
             # default is what a reader must assume), then also the optional c:grouping element itself
